@@ -2,6 +2,7 @@
 
 from typing import Any, Dict, List, Optional, Union, TYPE_CHECKING
 import math
+import re
 
 if TYPE_CHECKING:
     from .context import Context
@@ -117,6 +118,35 @@ def to_boolean(value: JSValue) -> bool:
     return True
 
 
+# StrWhiteSpaceChar and the StringNumericLiteral grammar of ECMA-262 (ASCII digits only,
+# no digit separators, radix prefixes without a sign, "Infinity" spelled out)
+_JS_WHITESPACE = (
+    "\t\n\v\f\r \u00a0\u1680\u2000\u2001\u2002\u2003\u2004\u2005\u2006\u2007"
+    "\u2008\u2009\u200a\u2028\u2029\u202f\u205f\u3000\ufeff"
+)
+_STR_DECIMAL = re.compile(
+    r"[+-]?(?:Infinity|(?:[0-9]+\.?[0-9]*|\.[0-9]+)(?:[eE][+-]?[0-9]+)?)\Z"
+)
+_STR_RADIX = re.compile(r"0(?:[xX][0-9a-fA-F]+|[oO][0-7]+|[bB][01]+)\Z")
+
+
+def _string_to_number(text: str) -> Union[int, float]:
+    """StringToNumber: the value of a StringNumericLiteral, NaN if it is not one."""
+    s = text.strip(_JS_WHITESPACE)
+    if s == "":
+        return 0
+    if _STR_RADIX.match(s):
+        return float(int(s[2:], {"x": 16, "o": 8, "b": 2}[s[1].lower()]))
+    if not _STR_DECIMAL.match(s):
+        return float("nan")
+    if s.endswith("Infinity"):
+        return float("-inf") if s[0] == "-" else float("inf")
+    number = float(s)
+    if number.is_integer() and abs(number) < 2**53 and (number != 0 or s[0] != "-"):
+        return int(number)  # same value; integers are the common case for indexes
+    return number
+
+
 def to_number(value: JSValue) -> Union[int, float]:
     """Convert a JavaScript value to number."""
     if value is UNDEFINED:
@@ -128,21 +158,7 @@ def to_number(value: JSValue) -> Union[int, float]:
     if isinstance(value, (int, float)):
         return value
     if isinstance(value, str):
-        s = value.strip()
-        if s == "":
-            return 0
-        try:
-            if "." in s or "e" in s.lower():
-                return float(s)
-            if s.startswith("0x") or s.startswith("0X"):
-                return int(s, 16)
-            if s.startswith("0o") or s.startswith("0O"):
-                return int(s, 8)
-            if s.startswith("0b") or s.startswith("0B"):
-                return int(s, 2)
-            return int(s)
-        except ValueError:
-            return float("nan")
+        return _string_to_number(value)
     # TODO: Handle objects with valueOf
     return float("nan")
 
